@@ -163,6 +163,22 @@ theorem untilColon_ok (a r : Bytes) (stk : List Bytes) (h : ∀ x ∈ a, x ≠ 5
     untilColon ⟨a ++ 58 :: r, stk⟩ = (.ok a, ⟨58 :: r, stk⟩) := by
   gsimp [untilColon, indexOf_append_at a r 58 h]
 
+theorem indexWhere_append_at (f : UInt8 → Bool) (k r : Bytes) (c : UInt8) (h : ∀ x ∈ k, f x = false)
+    (hc : f c = true) : indexWhere f (k ++ c :: r) = some k.length := by
+  induction k with
+  | nil => simp [indexWhere, hc]
+  | cons x k ih =>
+    have hx : f x = false := h x (by simp)
+    simp only [List.cons_append, indexWhere, hx, Bool.false_eq_true, if_false,
+      ih (fun y hy => h y (by simp [hy]))]
+    simp
+
+/-- `pars.Until(filter)` in front of the first byte the filter accepts -/
+theorem untilFilter_ok (f : UInt8 → Bool) (a r : Bytes) (c : UInt8) (stk : List Bytes)
+    (h : ∀ x ∈ a, f x = false) (hc : f c = true) :
+    untilFilter f ⟨a ++ c :: r, stk⟩ = (.ok a, ⟨c :: r, stk⟩) := by
+  gsimp [untilFilter, indexWhere_append_at f a r c h hc]
+
 /-- **CONTIG** round trip; the parser stops behind the closing parenthesis (the line feed is
 skipped by the record loop as an empty unknown line) -/
 theorem contig_roundtrip (f g : Fields) (rest : Bytes) (stk : List Bytes) (h : contigOk g = true) :
@@ -190,8 +206,15 @@ theorem contig_roundtrip (f g : Fields) (rest : Bytes) (stk : List Bytes) (h : c
   have hi1 := fun X s => int_natDigits a (bs ".." ++ X) s (by simp [bs, List.dropWhile, isDigit]) (by omega)
   have hi2 := fun X s => int_natDigits b (41 :: X) s (by simp [List.dropWhile, isDigit]) (by omega)
   have hl41 : ∀ X s, lit [41] ⟨41 :: X, s⟩ = (.ok (), ⟨X, s⟩) := fun X s => lit_ok [41] X s
-  have hu := fun r s => untilColon_ok g.contigAcc r s hcol
+  have hstop : ∀ x ∈ g.contigAcc, contigStop x = false := by
+    intro x hx
+    have hx58 := hcol x hx
+    have hxe := (List.all_eq_true.mp h2) x hx
+    simp only [Bool.and_eq_true, bne_iff_ne, ne_eq] at hxe
+    simp [contigStop, hx58, hxe.1, hxe.2]
+  have hu := fun r s => untilFilter_ok contigStop g.contigAcc r 58 s hstop (by decide)
+  have hl58 : ∀ X s, lit [58] ⟨58 :: X, s⟩ = (.ok (), ⟨X, s⟩) := fun X s => lit_ok [58] X s
   have e1 : ((a : Int) - 1) = g.contigHead := by omega
-  gsimp [contigField, hn, lit_ok, hu, hi1, hi2, hl41, e1, hb]
+  gsimp [contigField, hn, lit_ok, hu, hl58, hi1, hi2, hl41, e1, hb]
 
 end Gts.GenBank
